@@ -9,10 +9,14 @@ import (
 	"strings"
 	"sync"
 
+	"golang.org/x/tools/go/ssa"
+
+	"verif/internal/absint"
 	"verif/internal/engine"
 	"verif/internal/ev"
 	"verif/internal/isa"
 	"verif/internal/load"
+	"verif/internal/rules"
 )
 
 // Ctx is the shared analysis context of one process.
@@ -27,6 +31,60 @@ type Ctx struct {
 
 	stepOnce sync.Once
 	step     *stepAnalysis
+}
+
+// InstallResolvers lets the shape rules resolve calls through constant
+// function tables (package-level arrays/slices of functions that only package
+// initialisation writes), using the engine's interpreted initialisation.
+func (cx *Ctx) InstallResolvers() {
+	if cx.E == nil {
+		return
+	}
+	rules.ResolveFuncValue = func(v ssa.Value) ([]*ssa.Function, bool) {
+		u, ok := v.(*ssa.UnOp)
+		if !ok {
+			return nil, false
+		}
+		var g *ssa.Global
+		switch a := u.X.(type) {
+		case *ssa.IndexAddr:
+			switch b := a.X.(type) {
+			case *ssa.Global:
+				g = b
+			case *ssa.UnOp: // slice loaded from a global
+				g, _ = b.X.(*ssa.Global)
+			}
+		case *ssa.Global:
+			g = a
+		}
+		if g == nil {
+			return nil, false
+		}
+		root := "global:" + g.RelString(nil)
+		if !cx.E.InitOnly[root] {
+			return nil, false
+		}
+		var out []*ssa.Function
+		n := 0
+		want := map[string]bool{root: true}
+		if sv, ok := cx.E.GlobalInit.Get(root, ""); ok {
+			if sl, ok := sv.(*absint.Slice); ok {
+				want[sl.Root] = true
+			}
+		}
+		for _, k := range cx.E.GlobalInit.Keys() {
+			r, p := absint.SplitKey(k)
+			if !want[r] {
+				continue
+			}
+			val, _ := cx.E.GlobalInit.Get(r, p)
+			if fv, ok := val.(*absint.FuncV); ok && fv.Fn != nil {
+				out = append(out, fv.Fn)
+				n++
+			}
+		}
+		return out, n > 0
+	}
 }
 
 // Arms runs (once) the comparison of every opcode-byte prefix.
